@@ -186,6 +186,22 @@ def run_unit(unit, rng, ctx):
     ok = ctx.check(float(dev.max()) <= 1e-8, f'{what}: vector of bond {b_} at frame {t_} is {got[t_, b_].tolist()}, the minimum-image centre->satellite bond is {want[t_, b_].tolist()}', wit)
     ln = np.linalg.norm(got, axis=2)
     ctx.check(np.allclose(ln, np.linalg.norm(want, axis=2), rtol=0, atol=1e-8), f'{what}: vector lengths are not the periodic centre-satellite distances', wit)
+    # a SECOND system in the same process with the same species sequence (same atom table) but other bonding: the
+    # satellites listed for cluster c now sit around cluster c+1
+    if 2 <= n_cl <= 8 and unit['i'] % 2 == 0:
+        coords2 = np.empty_like(coords)
+        for idx, (nm, kd, c, j) in enumerate(atoms):
+            coords2[:, idx] = cent[:, c] if kd == 'c' else (sat[:, (c + 1) % n_cl, j] if kd == 's' else (free_tr[:, c] if kd == 'f' else spec[:, c]))
+        traj2 = gen.make_trajectory(m, list(traj.species), np.mod(coords2, 1), time_step=1e-15)
+        want2 = np.stack([truth[:, c, j] for c in cent_order for (cc, j) in sat_order if (cc + 1) % n_cl == c], axis=1)
+        with warnings.catch_warnings():
+            warnings.simplefilter('ignore')
+            got2 = np.asarray(Orientations(traj2, center_type=c_name, satellite_type=s_name).vectors)
+        if ctx.check(got2.shape == want2.shape, f'{what} [second system, same species sequence, other bonding]: vectors has shape {got2.shape}, expected {want2.shape}', wit):
+            d2 = np.abs(got2 - want2)
+            t2_, b2_, _ = np.unravel_index(np.argmax(d2), d2.shape)
+            ctx.check(float(d2.max()) <= 1e-8, f'{what} [second system, same species sequence, other bonding]: vector of bond {b2_} at frame {t2_} is {got2[t2_, b2_].tolist()}, the centre->satellite bond is {want2[t2_, b2_].tolist()}', wit)
+        ctx.count('second_systems_with_the_same_species_sequence')
     # how many bonds cross a face (satellite and centre in different cells)?
     crossing = 0
     for c in range(n_cl):
